@@ -17,9 +17,9 @@ class StopAfterThirdPay(StopAfterSecondPay):
 def main(tier, seed, args):
     rep = Report(PID, tier, seed, 'model_checking')
     c = ctx('on')
-    rep.bounds = {'htlc_sets': '1 set; 2 consecutive sets for one invoice', 'parts': '1 per pay command + 1 from an earlier attempt',
-                  'stored_history': ['absent', 'Pending with a pending/complete/failed part', 'Succeeded'], 'crash': 1,
-                  'pay_outcomes': 'complete, pending, failed, failed+warning, RPC error', 'outside': 'more sets / parts / crashes; RPC faults (thorough: 1)'}
+    rep.bounds = {'htlc_sets': '1 set; 2 consecutive sets for one invoice', 'parts': '1 per pay command + 1 from an earlier attempt (restart configuration: 2 earlier parts, codes 203/204)',
+                  'stored_history': ['absent', 'Pending with a pending/complete/failed part', 'Succeeded'], 'crash': '1, anywhere in a single-set run; 1 while the second set\'s attempt is live',
+                  'pay_outcomes': 'complete, pending, failed, failed with a non-empty / empty partial-completion warning, RPC error 210, RPC error without a node error code', 'outside': 'more sets / parts / crashes; RPC faults (thorough: 1)'}
     rep.assumptions = ['node model: a pay command that returned creates no further parts; part states monotone']
     rep.trusted = ['mirsym', 'z3', 'node model', 'tokio contracts']
     budget = 400 if tier == 'quick' else 3000
